@@ -249,6 +249,18 @@ def sum_over(fn, ctx, container):
                     cands.append((j, lhs, rhs, shp))
                     break
     if not cands:
+        # an assignment where an accumulation is expected:  for (...) acc = term(e);  return acc;
+        for j, n in fn.walk(fn.body):
+            if n["k"] == "bin" and n["op"] == "=" and fn.nodes[n["l"]]["k"] == "ref" and fn.nodes[n["l"]].get("dk") == "local":
+                for L in enclosing_loops(fn, j):
+                    if fn.nodes[L]["k"] not in ("for", "forrange"):
+                        continue
+                    shp = loop_shape(fn, ctx, L)
+                    from .expr import key_contains
+                    if any(isinstance(shp.get(x), tuple) and key_contains(shp[x], lambda y: y == container) for x in ("start", "bound")):
+                        tk = ctx.key(n["l"], inline=False)
+                        if any(m["k"] == "return" and m.get("sub") is not None and _unconv(ctx.key(m["sub"], inline=False))[:2] == tk[:2] for _, m in fn.walk(fn.body)):
+                            return {"status": "partial", "node": j, "loop": shp, "why": "the returned variable is overwritten in every iteration instead of accumulated: only the last element counts"}
         algo = [strip_targs(n.get("cname") or "") for j, n in fn.walk(fn.body) if n["k"] == "call" and strip_targs(n.get("cname") or "") in ("std::accumulate", "std::for_each", "std::inner_product", "std::transform")]
         return {"status": "unknown", "why": ("uses %s (callable argument not analysed)" % algo[0]) if algo else "no loop over the container that accumulates with +="}
     if len(cands) > 1:
@@ -268,4 +280,6 @@ def sum_over(fn, ctx, container):
             # declared, then assigned 0 before the loop
             zero = any(fn.nodes[m]["k"] == "bin" and fn.nodes[m]["op"] == "=" and ctx.key(fn.nodes[m]["r"]) in ZERO_KEYS and not enclosing_loops(fn, m) for m in ctx.mut.get(tk[1], []))
         returned = any(m["k"] == "return" and m.get("sub") is not None and _unconv(ctx.key(m["sub"], inline=False))[:2] == tk[:2] for _, m in fn.walk(fn.body))
-    return {"status": "ok", "loop": shp, "acc": j, "target": tk, "term": rhs, "zero": zero, "returned": returned, "filtered": bool(shp["continues"])}
+    from .paths import every_iteration
+    ev = every_iteration(fn, shp["node"], j)
+    return {"status": "ok", "loop": shp, "acc": j, "target": tk, "term": rhs, "zero": zero, "returned": returned, "filtered": ev is False}
